@@ -7,7 +7,7 @@ from io import StringIO
 
 from vf.cond import cond
 
-from .common import DictLoader, LiquidError, concrete_int, drive
+from .common import DictLoader, LiquidError, concrete_int, drive, untraced
 
 from liquid2 import RenderContext  # noqa: E402
 from liquid2.builtin.tags.extends_tag import BlockDrop  # noqa: E402
@@ -132,7 +132,7 @@ class CallDrop(_Logged):
 
 
 SHAPES = [Plain, MapDrop, SeqDrop, CallDrop]
-NAMES = sorted(set().union(*(set(dir(c())) for c in SHAPES)) | {"title", "first", "last", "size", "0", "secret", "leak", "prop", "__globals__", "__dict__", "__init__", "__class__", "mro", "__subclasses__", "__mro__", "__base__", "__code__", "__builtins__", "__import__"})
+NAMES = sorted(set().union(*(set(dir(c())) for c in SHAPES)) | {"title", "first", "last", "size", "0", "secret", "leak", "prop", "__globals__", "__dict__", "__init__", "__class__", "mro", "__subclasses__", "__mro__", "__base__", "__code__", "__builtins__", "__import__", "{0.secret}", "%(secret)s", "secret.__class__", "__getattribute__", "items", "keys", "get"})
 LOG.clear()
 
 ENV = ShopifyEnvironment(loader=DictLoader({"p": "[{{ o[k] }}]", "secret": "no"}))
@@ -148,6 +148,9 @@ PROGRAMS = [
     "{% include k %}",
     "{{ k | escape: environment: o }}|{{ k | t: context: o }}|{{ k | strip_html: environment: o }}|{{ k | join: environment: o }}|{{ k | url_encode: environment: o, context: o }}",
     "{{ o | t: k }}|{{ k | t: o: o }}|{% translate o: o, k: k %}{{ o }}{{ k }}{% endtranslate %}|{{ o | date: k }}|{{ k | date: o }}",
+    "{{ o | map: k | join: ',' }}|{{ o | where: k | size }}|{{ o | sort: k | size }}|{{ o | uniq: k | size }}|{{ o | sum: k }}|{{ o | find: k }}|{{ o | has: k }}|{{ o | compact: k | size }}",
+    "{% for p in o %}{% for q in p %}{{ q[k] }}{% endfor %}{% endfor %}|{% tablerow p in o %}{{ p[k] }}{% endtablerow %}|{{ o | first | map: k }}|{% for p in o limit: 1 %}{{ forloop[k] }}{{ p }}{% endfor %}",
+    "{{ o[k] | default: o }}|{{ o | default: k | append: o }}|{% assign z = o %}{{ z[k][k] }}|{% capture c %}{{ o }}{% endcapture %}{{ c[k] }}|{{ \"${o[k]}${k}\" }}|{% echo o[k] %}|{% cycle o[k], k %}",
 ]
 TEMPLATES = [ENV.from_string(s) for s in PROGRAMS]
 for _t in TEMPLATES:
@@ -169,20 +172,25 @@ def _render(t, data: dict, is_async: bool) -> str:
     timeout=300,
     shard={"p": list(range(len(PROGRAMS)))},
     covers="for every attribute name of the context objects used as path segment, filter argument, lambda body key, loop/tablerow drop key or include name: the secret held in a Python attribute never appears in the output (nor in an error message), and the only attributes read by name are protocol hooks",
-    bounds="11 programs (engine-injected keyword names context/environment supplied by the template, paths, first/last/size, map/where/reject/sort*/sum/uniq/compact/find/has, lambdas, for/tablerow, render/include/with/assign/capture, misc filters, conditions, include by name, translate/date) x 4 object shapes x ~90 names (dir(obj) incl. dunders + documented keys), sync and async",
+    bounds="14 programs (engine-injected keyword names context/environment supplied by the template, paths, first/last/size, map/where/reject/sort*/sum/uniq/compact/find/has, lambdas, for/tablerow, render/include/with/assign/capture, misc filters, conditions, include by name, translate/date) x 4 object shapes x ~90 names (dir(obj) incl. dunders + documented keys), sync and async",
     stubs=("context objects log attribute reads through __getattribute__",),
     grid=lambda: [(p, NAMES.index(n), s, a) for p in range(len(PROGRAMS)) for n in ("secret", "leak", "prop", "__class__", "__dict__", "title", "first", "__init__") for s in range(4) for a in (False, True)],
 )
 def d_no_attr(p: int, ni: int, shape: int, is_async: bool) -> bool:
     k = NAMES[concrete_int(ni, 0, len(NAMES) - 1)]
     cls = SHAPES[concrete_int(shape, 0, 3)]
-    o = cls()
-    items = [cls(), cls()]
-    LOG.clear()
-    out = _render(TEMPLATES[p], {"o": o, "l": items, "k": k, "probe": SECRET}, is_async)
-    if SECRET in out:
-        return False
-    return all(_allowed(name, shape_name) for shape_name, name in LOG)
+    is_async = bool(is_async)
+
+    def run() -> bool:  # name, object shape and mode are concrete: the render runs outside the tracer
+        o = cls()
+        items = [cls(), cls()]
+        LOG.clear()
+        out = _render(TEMPLATES[p], {"o": o, "l": items, "k": k, "probe": SECRET}, is_async)
+        if SECRET in out:
+            return False
+        return all(_allowed(name, shape_name) for shape_name, name in LOG)
+
+    return untraced(run)
 
 
 # ---- drops that use getattr-by-name internally ------------------------------------------------
